@@ -43,6 +43,7 @@ def step (line : String) : String :=
   -- server-level shutdown: every router finishes once its channel is closed (c16_pubsub_finishes, c16_reqrep_finishes)
   | "shut" :: _ => "finished"
   | "pp" :: rest => Driver.PubClient.run rest
+  | "ppdup" :: rest => Driver.PubClient.runDup rest
   | "ppx" :: rest => Driver.PubClient.run rest
   | "tn" :: rest => Driver.Topic.run "tn" rest
   | "tc" :: rest => Driver.Topic.run "tc" rest
